@@ -251,6 +251,26 @@ def positions(existing):
     return out
 
 
+def case_variant(name, existing):
+    """[("case", v)]: v differs from `name` only in the case of one ASCII letter and stands at the SAME place in the
+    bytewise order of `existing` (so an ordered walk meets it where it expects `name`); [] if there is none.
+    (round 5, seeded C17-5: identifiers compared with sqlite3_stricmp - a case-only rename that keeps its place
+    in the sorted catalog was no longer reported)"""
+    others = [e for e in existing if e != name]
+    low = {e.lower() for e in others}
+    rank = sorted(existing, key=lambda x: x.encode()).index(name) if name in existing else None
+    for i in range(len(name) - 1, -1, -1):
+        ch = name[i]
+        if not (ch.isascii() and ch.isalpha()):
+            continue
+        v = name[:i] + ch.swapcase() + name[i + 1:]
+        if v.lower() in low or v.startswith("sqlite_") != name.startswith("sqlite_"):
+            continue
+        if rank is None or sorted(others + [v], key=lambda x: x.encode()).index(v) == rank:
+            return [("case", v)]
+    return []
+
+
 # names an implementation might treat specially: look-alikes of SQLite's internal names (also up to letter case),
 # LIKE / GLOB metacharacters, quotes, blanks, non-ASCII, single characters
 ADVERSARIAL = ["sqlite3stats", "SQLiteXStatus", "sqlite-stat9", "sqliteXsequence", "sqlite", "a_b%c", "x*y?z", "we[i]rd",
@@ -322,7 +342,8 @@ def enumerate_mutants(lib):
         for ti, (n, t) in enumerate(user.items()):
             # every table is renamed to the three positions; the adversarial names are dealt round over the tables
             adv = adversarial(list(tables) + list(views))
-            for pos, new in positions(list(tables) + list(views)) + [a for j, a in enumerate(adv) if j % len(user) == ti]:
+            for pos, new in positions(list(tables) + list(views)) + case_variant(n, list(tables) + list(views)) + \
+                    [a for j, a in enumerate(adv) if j % len(user) == ti]:
                 omit, repl, pure = [], [(t.stmt["i"], retable(t, name=new))], True
                 for s in lib.deps(label, n):
                     ix = next((i for i in t.idx if i[0] == s["name"]), None) if s["type"] == "index" else None
@@ -342,7 +363,8 @@ def enumerate_mutants(lib):
                               add=["CREATE VIEW %s AS SELECT 1 AS x" % q(new)]))
         for vi, (n, s) in enumerate(views.items()):
             adv = adversarial(list(tables) + list(views))
-            for pos, new in positions(list(tables) + list(views)) + [a for j, a in enumerate(adv) if j % len(views) == vi]:
+            for pos, new in positions(list(tables) + list(views)) + case_variant(n, list(tables) + list(views)) + \
+                    [a for j, a in enumerate(adv) if j % len(views) == vi]:
                 sql, k = re.subn(r'^(\s*CREATE\s+VIEW\s+)("[^"]+"|\[[^\]]+\]|`[^`]+`|[A-Za-z0-9_$]+)', lambda m: m.group(1) + q(new),
                                  s["sql"], count=1, flags=re.I)
                 if k != 1:
@@ -392,7 +414,7 @@ def enumerate_mutants(lib):
                     col_mut("col-drop", c[0], rest2, auto=auto_without(c[0]), dropcol=c[0],
                             lean="%s dropCol %s %s" % (label, hexs(n), hexs(c[0])),
                             autoinc=t.autoinc and c[4] == 0)
-                for pos, new in positions(cn):
+                for pos, new in positions(cn) + case_variant(c[0], cn):
                     cols = [((new,) + x[1:]) if x is c else x for x in t.cols]
                     col_mut("col-rename-" + pos, "%s -> %s" % (c[0], new), cols, auto=auto_without(c[0], new), rename=(c[0], new),
                             lean="%s updCol %s %s %s" % (label, hexs(n), hexs(c[0]), col_txt((new,) + c[1:])))
@@ -439,7 +461,7 @@ def enumerate_mutants(lib):
                         continue
                     out.append(mutant("index-drop", label, "%s.%s" % (n, ix[0]), "%s dropIdx %s %s" % (label, hexs(n), hexs(ix[0])),
                                       omit=[s["i"]]))
-                    for pos, new in positions(inames):
+                    for pos, new in positions(inames) + case_variant(ix[0], inames):
                         if index_regenerable(ix):
                             sql = index_sql(n, (new,) + ix[1:])
                         else:
@@ -486,6 +508,28 @@ def enumerate_mutants(lib):
                 ix = (new, 0, "c", 0, [(0, c0)])
                 out.append(mutant("index-add-" + pos, label, "%s.+%s" % (n, new),
                                   "%s addIdx %s %s" % (label, hexs(n), idx_txt(ix)), add=[index_sql(n, ix)]))
+    return out
+
+
+def neighbour_mutants(lib, lib2):
+    """the library of `lib.schema` rebuilt with the catalog of a NEIGHBOURING version (same generation) while its
+    version row stays its own: per database file one mutant that turns the statement list of lib into lib2's
+    (replace in place what both have, omit what only lib has, append what only lib2 has).  verify() must judge a
+    library against the version it states (round 5, seeded C17-6: verify() fell back to the validator of the next
+    patch level 'because Engine upgrades in place and rewrites the version row later')."""
+    out = []
+    for label in lib.labels:
+        a = [s for s in lib.stmts if s["label"] == label]
+        b = [s for s in lib2.stmts if s["label"] == label]
+        kb = {(s["type"], s["name"]): s for s in b}
+        ka = {(s["type"], s["name"]): s for s in a}
+        omit = [s["i"] for s in a if (s["type"], s["name"]) not in kb]
+        repl = [(s["i"], kb[(s["type"], s["name"])]["sql"]) for s in a
+                if (s["type"], s["name"]) in kb and kb[(s["type"], s["name"])]["sql"] != s["sql"]]
+        add = [s["sql"] for s in b if (s["type"], s["name"]) not in ka]
+        if omit or repl or add:
+            out.append(mutant("neighbour-version", label, "%s -> catalog of %s" % (lib.schema, lib2.schema),
+                              omit=omit, repl=repl, add=add))
     return out
 
 
@@ -546,6 +590,17 @@ def run_schema(schema, select, ctx, extracted=None):
         return res
     lib = Lib(schema, stmts, cat)
     allm = enumerate_mutants(lib)
+    # the neighbouring versions of the same generation (both directions)
+    k = SCHEMAS.index(schema)
+    for k2 in (k - 1, k + 1):
+        if 0 <= k2 < len(SCHEMAS) and SCHEMAS[k2].split("_")[1] == schema.split("_")[1]:
+            o2, _ = runner.run_harness_script(["create %s disk" % SCHEMAS[k2], "sv.base"], watchdog=60)
+            try:
+                st2, cat2, _t = parse_base(o2[1])
+                allm += neighbour_mutants(lib, Lib(SCHEMAS[k2], st2, cat2))
+            except Exception as e:
+                res["divergences"].append({"input": "create %s disk ; sv.base" % SCHEMAS[k2], "impl": " | ".join(x[:200] for x in o2),
+                                           "model": "expected the statement list and catalog (%r)" % (e,)})
     muts = select(allm)
     res["enumerated"] = len(allm)
     lines = ["sv.mut -"] + [mut_line(m) for m in muts]
@@ -849,14 +904,15 @@ def tie(ctx):
             # quick tier, other versions: everything at table / view level, every "new name last" mutant (the only
             # detector of a missing validate_no_more), one column-list change per index (the only detector of an
             # index whose columns are never inspected), and one mutant of every other kind family PER TABLE
-            always = ("identity", "table-", "view-", "index-col-replace", "autoindex-col-replace")
+            always = ("identity", "table-", "view-", "index-col-replace", "autoindex-col-replace", "neighbour-version")
             out, groups = [], {}
             for m in allm:
                 k = m["kind"]
                 if k.startswith(always) or k.endswith(("-add-last", "-add-only", "-adv", "-analyze")):
                     out.append(m)
                 else:
-                    fam = re.sub(r"-(first|between|last|add|drop|change|remove|case)$", "", k)
+                    # a case-only rename is a family of its own (one per table and kind), not one of the rename positions
+                    fam = k if k.endswith("-rename-case") else re.sub(r"-(first|between|last|add|drop|change|remove|case)$", "", k)
                     groups.setdefault((fam, m["label"], m["what"].split(".")[0]), []).append(m)
             for g in sorted(groups):
                 out.append(rng.choice(groups[g]))
